@@ -673,6 +673,24 @@ class _KeyFlow(Flow):
                 s = dict(s)
                 s[pr[0]] = True      # loop exits only when the key is absent (or the flag is off)
                 return s
+            acc = self._accept(st.test)
+            if pr is None and acc is not None and acc[1] is False and acc[0] != "*" and not st.orelse \
+                    and not any(isinstance(x, ast.Break) for x in ast.walk(st)) \
+                    and any(isinstance(s2, ast.Assign) and any(isinstance(t, ast.Name) and t.id == acc[0] for t in s2.targets) for s2 in st.body):
+                s = dict(s)
+                s[acc[0]] = True     # same loop with the test written another way (De Morgan): it is left only on the edge where the key is acceptable
+                return s
+            if pr is None and acc is None:
+                # a renaming loop whose test this analysis cannot read (a helper predicate, a walrus ...): the key it renames is UNDECIDED afterwards
+                tn = {n.id for n in ast.walk(st.test) if isinstance(n, ast.Name)}
+                ren = {t.id for s2 in ast.walk(st) if isinstance(s2, ast.Assign) for t in s2.targets if isinstance(t, ast.Name)} & tn
+                if ren and any(isinstance(n, ast.Call) for n in ast.walk(st.test)):
+                    out = super().stmt(st, s)
+                    out = dict(out)
+                    for k in ren:
+                        if out.get(k) is not True:
+                            out[k] = None
+                    return out
         if isinstance(st, ast.If):
             acc = self._accept(st.test)
             if acc is not None and not (isinstance(st.test, ast.Name)):
